@@ -1131,7 +1131,17 @@ impl PacketReceiver for RtpTransport {
                 }
 
                 if selected.is_none() {
-                    selected = listeners.single_provisional();
+                    // The provisional listener is the fallback for packets no route
+                    // claims. A payload type that some route lists gets here only
+                    // when it is ambiguous between receivers: drop it rather than
+                    // hand it to whichever of them happens to be provisional.
+                    if !listeners
+                        .routes
+                        .iter()
+                        .any(|route| route.payload_types.contains(&pt))
+                    {
+                        selected = listeners.single_provisional();
+                    }
                     bind_ssrc = false;
                 }
 
